@@ -24,6 +24,8 @@ CONSTANTS ReplyMode,          \* "pinned" | "deferred"
                               \* FALSE: it just clears the event (mutation): KEXINIT can overtake a user packet
           FlushSkips,         \* mutation: the flush at NEWKEYS removes entries from the list it iterates over, so every second
                               \* held-back reply stays queued
+          DeferCap,           \* 0: the list of held-back replies is unbounded (as the code); n > 0 (mutation): before a reply
+                              \* is appended only the last n held-back replies are kept, older ones are dropped
           UngatedUser         \* mutation: some user-level API (fire-and-forget global request, keepalive) writes its
                               \* packet without consulting clear_to_send; FALSE: every user-level send goes through the gate
 
@@ -94,6 +96,7 @@ Odd(q)  == [i \in 1..((Len(q) + 1) \div 2) |-> q[2 * i - 1]]
 Even(q) == [i \in 1..(Len(q) \div 2) |-> q[2 * i]]
 Flushed(q) == IF FlushSkips THEN Odd(q) ELSE q
 Kept(q)    == IF FlushSkips THEN Even(q) ELSE <<>>
+Capped(q)  == IF DeferCap = 0 \/ Len(q) <= DeferCap THEN q ELSE SubSeq(q, Len(q) - DeferCap + 1, Len(q))
 InExchange(e) == sentKexinit[e] /\ ~gotNewkeys[e]
 ExpectingKex(e) == gotKexinit[e] /\ ~gotNewkeys[e]      \* _expected_packet is a kex type
 
@@ -148,7 +151,7 @@ Handle(e) ==
                    /\ out' = [out EXCEPT ![e] = @ \o <<"reply">>]
                    /\ UNCHANGED <<sentKexinit, gotKexinit, sentNewkeys, gotNewkeys, cts, blocked, dead, deferred, replies>>
             ELSE IF ReplyMode = "deferred"
-              THEN /\ deferred' = [deferred EXCEPT ![e] = Append(@, "reply")] /\ wire' = rest
+              THEN /\ deferred' = [deferred EXCEPT ![e] = Append(Capped(@), "reply")] /\ wire' = rest
                    /\ UNCHANGED <<sentKexinit, gotKexinit, sentNewkeys, gotNewkeys, cts, blocked, dead, out, replies>>
             ELSE IF m = "wants_direct_reply"
               THEN /\ wire' = [rest EXCEPT ![Peer(e)] = @ \o <<"reply">>]     \* emitted in the middle of the exchange
@@ -179,6 +182,10 @@ OpenTail(s) == \A i, k \in 1..Len(s) : (i < k /\ s[i] = "KEXINIT" /\ \A x \in i+
 KexQuiet == \A e \in Ends : QuietBetween(out[e]) /\ OpenTail(out[e])
 SessionStaysUp == \A e \in Ends : ~dead[e]
 NoSelfWait == \A e \in Ends : ~blocked[e]
+\* deferred design: every reply held back is still held or has been delivered - none is dropped (only B sends requests,
+\* so only A answers): every request of B is on A's wire, or its answer is in A's held-back list, or A has emitted it
+Count(s, S) == Cardinality({i \in 1..Len(s) : s[i] \in S})
+NoReplyLost == requests = Count(wire["A"], {"wants_user_reply", "wants_direct_reply"}) + Len(deferred["A"]) + Count(out["A"], {"reply"})
 \* every behaviour that stops has completed the exchange and answered every in-flight request:
 \* checked as deadlock freedom (CHECK_DEADLOCK TRUE): the only terminal states are Finished ones
 =============================================================================
